@@ -566,7 +566,7 @@ func init() {
 		},
 		Subs: []h.Sub{
 			{
-				Name: "layers", Count: h.Fixed(2000, 200000),
+				Name: "layers", Count: h.Fixed(2000, 600000),
 				Run: func(c *h.Ctx, idx uint64, r *h.Rand) {
 					layers := c03layers(r, false)
 					c03roundTrip(c, r, layers, false)
@@ -587,7 +587,7 @@ func init() {
 				},
 			},
 			{
-				Name: "collection-features", Count: h.Fixed(500, 50000),
+				Name: "collection-features", Count: h.Fixed(500, 150000),
 				Run: func(c *h.Ctx, idx uint64, r *h.Rand) {
 					layers := c03layers(r, true)
 					c03roundTrip(c, r, layers, true)
